@@ -4,12 +4,11 @@
   model on fixed script skeletons with symbolic push data.
 -/
 import BtcVerif.Model.ScriptEval
+import BtcVerif.Spec.Templates
 
 namespace BtcVerif.C05T
 open BtcVerif BtcVerif.Spec BtcVerif.Spec.Script BtcVerif.Model.Script BtcVerif.Model.ScriptEval
-
-/-- direct push of `d` (opcode = length, for lengths below OP_PUSHDATA1) -/
-def pushData (d : Bytes) : Bytes := UInt8.ofNat d.length :: d
+open BtcVerif.Spec.Templates
 
 /-! ### raw_iter on a script skeleton -/
 
@@ -241,8 +240,6 @@ theorem loop_cons (c : Ctx) (fl : Flags) (script : Bytes) (op : RawOp) (ops : Li
 
 /-! ### pay-to-pubkey -/
 
-def p2pkScript (key : Bytes) : Bytes := pushData key ++ [0xac]
-
 theorem rawIter_push_only (d : Bytes) (h : d.length < 0x4c) :
     rawIter (pushData d) = ([⟨d.length, some d, 0⟩], none) := by
   have := rawIterFrom_push 0 d [] h
@@ -371,8 +368,6 @@ theorem verify_p2pk (c : Ctx) (fl : Flags) (body : Bytes) (ht : UInt8) (key : By
 
 /-! ### pay-to-pubkey-hash -/
 
-def p2pkhScript (h : Bytes) : Bytes := [0x76, 0xa9] ++ pushData h ++ [0x88, 0xac]
-
 theorem rawIter_p2pkh (h : Bytes) (hh : h.length < 0x4c) :
     rawIter (p2pkhScript h) =
       ([⟨0x76, none, 0⟩, ⟨0xa9, none, 1⟩, ⟨h.length, some h, 2⟩, ⟨0x88, none, h.length + 3⟩,
@@ -496,9 +491,6 @@ theorem verify_p2pkh (c : Ctx) (fl : Flags) (body : Bytes) (ht : UInt8) (key : B
 
 
 /-! ### P2SH wrapping -/
-
-/-- `OP_HASH160 <h> OP_EQUAL` -/
-def p2shScript (h : Bytes) : Bytes := [0xa9] ++ pushData h ++ [0x87]
 
 theorem rawIter_p2sh (h : Bytes) (hh : h.length < 0x4c) :
     rawIter (p2shScript h) = ([⟨0xa9, none, 0⟩, ⟨h.length, some h, 1⟩, ⟨0x87, none, h.length + 2⟩], none) := by
@@ -649,21 +641,7 @@ theorem verify_p2sh_p2pk (c : Ctx) (fl : Flags) (body : Bytes) (ht : UInt8) (key
 
 /-! ### multisig: signatures matched to keys in order -/
 
-/-- `Matching chk sigs keys`: the signatures can be assigned, in order, to a subsequence of the keys
-    such that `chk sig key` holds for every assigned pair ("signatures in key order") -/
-inductive Matching (chk : Bytes → Bytes → Bool) : List Bytes → List Bytes → Prop
-  | nil (ks : List Bytes) : Matching chk [] ks
-  | take {s k : Bytes} {ss ks : List Bytes} : chk s k = true → Matching chk ss ks → Matching chk (s :: ss) (k :: ks)
-  | skip {k : Bytes} {ss ks : List Bytes} : Matching chk ss ks → Matching chk ss (k :: ks)
-
-/-- what the loop of `_CheckMultiSig` computes: the first signature is tried against the keys one by
-    one; a key is used up by every attempt -/
-def greedy (chk : Bytes → Bytes → Bool) : List Bytes → List Bytes → Bool
-  | [], _ => true
-  | _ :: _, [] => false
-  | s :: ss, k :: ks => if chk s k then greedy chk ss ks else greedy chk (s :: ss) ks
-
-theorem Matching.tail {chk : Bytes → Bytes → Bool} {s : Bytes} {ss ks : List Bytes}
+theorem _root_.BtcVerif.Spec.Templates.Matching.tail {chk : Bytes → Bytes → Bool} {s : Bytes} {ss ks : List Bytes}
     (h : Matching chk (s :: ss) ks) : Matching chk ss ks := by
   generalize hl : s :: ss = l at h
   induction h with
@@ -736,7 +714,7 @@ theorem greedy_too_many (chk : Bytes → Bytes → Bool) : ∀ (ks ss : List Byt
       · apply ih; simp at h ⊢; omega
       · apply ih; simp at h ⊢; omega
 
-theorem Matching.append {chk : Bytes → Bytes → Bool} {a b c d : List Bytes}
+theorem _root_.BtcVerif.Spec.Templates.Matching.append {chk : Bytes → Bytes → Bool} {a b c d : List Bytes}
     (h1 : Matching chk a b) (h2 : Matching chk c d) : Matching chk (a ++ c) (b ++ d) := by
   induction h1 with
   | nil ks =>
@@ -747,7 +725,7 @@ theorem Matching.append {chk : Bytes → Bytes → Bool} {a b c d : List Bytes}
   | skip _ ih => exact .skip ih
 
 /-- order-preserving assignments survive reversing both lists -/
-theorem Matching.reverse {chk : Bytes → Bytes → Bool} {ss ks : List Bytes} (h : Matching chk ss ks) :
+theorem _root_.BtcVerif.Spec.Templates.Matching.reverse {chk : Bytes → Bytes → Bool} {ss ks : List Bytes} (h : Matching chk ss ks) :
     Matching chk ss.reverse ks.reverse := by
   induction h with
   | nil ks => exact .nil _
@@ -760,16 +738,9 @@ theorem Matching.reverse {chk : Bytes → Bytes → Bool} {ss ks : List Bytes} (
     simpa using this
 
 
-/-- `_CheckSig(sig, key, script)` as a Boolean: an empty signature fails, otherwise the last byte is
-    the hash type and the rest goes to the signature oracle -/
-def chkSig (c : Ctx) (script sig key : Bytes) : Bool :=
-  match sig.getLast? with
-  | none => false
-  | some ht => c.env.sigCheck sig.dropLast key script ht.toNat
-
 theorem checkSig_total (c : Ctx) (cap : Captured) (sig key sc : Bytes)
     (hidx : 0 ≤ c.inIdx) (hparse : (rawIter sc).2 = none) :
-    checkSig c cap sig key sc = .ok (chkSig c sc sig key) := by
+    checkSig c cap sig key sc = .ok (chkSig c.env sc sig key) := by
   unfold checkSig chkSig
   cases hs : sig.getLast? with
   | none =>
@@ -935,7 +906,7 @@ end stackshape
     signature on top), dummy -/
 theorem checkMultiSig_eval (c : Ctx) (fl : Flags) (sc : Bytes) (rk rs : List Bytes) (alt : List Bytes)
     (pb nops : Nat) (chk : Bytes → Bytes → Bool)
-    (hn : rk.length ≤ 16) (hm1 : 1 ≤ rs.length) (hm : rs.length ≤ rk.length) (hops : nops + rk.length ≤ 201)
+    (hn : rk.length ≤ 20) (hm1 : 1 ≤ rs.length) (hm : rs.length ≤ rk.length) (hops : nops + rk.length ≤ 201)
     (hsl : ∀ s ∈ rs, s.length < 0x4c)
     (hfad : ∀ s ∈ rs, ∀ cap, findAndDelete cap sc (pushData s) = .ok sc)
     (hchk : ∀ cap s k, checkSig c cap s k sc = .ok (chk s k)) :
@@ -1006,8 +977,6 @@ theorem checkMultiSig_eval (c : Ctx) (fl : Flags) (sc : Bytes) (rk rs : List Byt
 
 
 /-! ### scripts made of a list of direct pushes -/
-
-def pushAll (ds : List Bytes) : Bytes := (ds.map pushData).flatten
 
 def pushOps (idx : Nat) : List Bytes → List RawOp
   | [] => []
@@ -1091,14 +1060,8 @@ theorem pushOps_sorted : ∀ (ds : List Bytes) (idx : Nat),
 
 /-! ### bare multisig -/
 
-/-- OP_1 … OP_16 -/
-def opN (n : Nat) : UInt8 := UInt8.ofNat (0x50 + n)
-
-/-- `OP_m <key 1> … <key n> OP_n OP_CHECKMULTISIG` -/
-def multisigScript (m : Nat) (keys : List Bytes) : Bytes := opN m :: (pushAll keys ++ [opN keys.length, 0xae])
-
-/-- `OP_0 <sig 1> … <sig m>` -/
-def multisigScriptSig (sigs : List Bytes) : Bytes := pushAll ([] :: sigs)
+/-- the operation raw_iter yields for `numPush n` -/
+def numOp (n idx : Nat) : RawOp := if n ≤ 16 then ⟨0x50 + n, none, idx⟩ else ⟨1, some [UInt8.ofNat n], idx⟩
 
 theorem opN_toNat (n : Nat) (h : n ≤ 16) : (opN n).toNat = 0x50 + n := toNat_ofNat_lt (by omega)
 
@@ -1131,15 +1094,59 @@ theorem step_small (c : Ctx) (fl : Flags) (script : Bytes) (n idx : Nat) (stack 
   simp only [hdis, if_false, countOp_push _ _ (by omega : 0x50 + n ≤ 0x60), bind, Except.bind, dispatch, h2,
     checkExec, List.all_nil, true_or, if_true, hb, h4]
 
-theorem rawIter_multisig (m : Nat) (keys : List Bytes) (hm : m ≤ 16) (hn : keys.length ≤ 16)
-    (hk : ∀ k ∈ keys, k.length < 0x4c) :
+theorem numPush_length (n : Nat) : (numPush n).length = if n ≤ 16 then 1 else 2 := by
+  unfold numPush; split <;> simp [pushData]
+
+theorem numPush_length_le (n : Nat) : 1 ≤ (numPush n).length ∧ (numPush n).length ≤ 2 := by
+  rw [numPush_length]; split <;> omega
+
+/-- one loop iteration for a small number, however it is written -/
+theorem step_numOp (c : Ctx) (fl : Flags) (script : Bytes) (n idx : Nat) (stack alt : List Bytes) (pb nops : Nat)
+    (h1 : 1 ≤ n) (hsz : stack.length + 1 + alt.length ≤ 1000) :
+    step c fl script (numOp n idx) ⟨stack, alt, [], pb, nops⟩ =
+      .ok ⟨[UInt8.ofNat n] :: stack, alt, [], pb, nops⟩ := by
+  unfold numOp
+  split
+  · rename_i h; exact step_small c fl script n idx stack alt pb nops h1 h hsz
+  · exact step_push c fl script 1 idx [UInt8.ofNat n] stack alt pb nops (by omega) (by simp) hsz
+
+theorem rawIterFrom_numPush (idx n : Nat) (rest : Bytes) :
+    rawIterFrom idx (numPush n ++ rest) =
+      (numOp n idx :: (rawIterFrom (idx + (numPush n).length) rest).1,
+       (rawIterFrom (idx + (numPush n).length) rest).2) := by
+  unfold numPush numOp
+  split
+  · rename_i h
+    rw [List.singleton_append, rawIterFrom_opcode idx (opN n) _ (by rw [opN_toNat n h]; omega), opN_toNat n h]
+    simp
+  · rw [rawIterFrom_push idx [UInt8.ofNat n] rest (by simp)]
+    simp [pushData]
+
+theorem numOp_sopIdx (n idx : Nat) : (numOp n idx).sopIdx = idx := by
+  unfold numOp; split <;> rfl
+
+/-- the opcode byte of a small number is never the length byte of a push of 2 … 75 bytes -/
+theorem numPush_head (n : Nat) (hn : n ≤ 20) (rest : Bytes) (x : Nat) (hx : x < 0x4c) (hx1 : x ≠ 1) :
+    (numPush n ++ rest)[0]? ≠ some (UInt8.ofNat x) := by
+  unfold numPush
+  split
+  · rename_i h
+    simp only [List.singleton_append, List.getElem?_cons_zero, ne_eq, Option.some.injEq]
+    intro he
+    have := congrArg UInt8.toNat he
+    rw [opN_toNat n h, toNat_ofNat_lt (by omega)] at this
+    omega
+  · simp only [pushData, List.length_singleton, List.cons_append, List.getElem?_cons_zero, ne_eq,
+      Option.some.injEq]
+    exact ofNat_ne (by omega) (by omega) (Ne.symm hx1)
+
+theorem rawIter_multisig (m : Nat) (keys : List Bytes) (hk : ∀ k ∈ keys, k.length < 0x4c) :
     rawIter (multisigScript m keys) =
-      (⟨0x50 + m, none, 0⟩ :: (pushOps 1 keys ++
-        [⟨0x50 + keys.length, none, 1 + (pushAll keys).length⟩, ⟨0xae, none, 1 + (pushAll keys).length + 1⟩]), none) := by
+      (numOp m 0 :: (pushOps (numPush m).length keys ++
+        [numOp keys.length ((numPush m).length + (pushAll keys).length),
+         ⟨0xae, none, (numPush m).length + (pushAll keys).length + (numPush keys.length).length⟩]), none) := by
   unfold rawIter multisigScript
-  rw [rawIterFrom_opcode 0 (opN m) _ (by rw [opN_toNat m hm]; omega), opN_toNat m hm,
-    rawIterFrom_pushAll _ keys _ hk,
-    rawIterFrom_opcode _ (opN keys.length) _ (by rw [opN_toNat _ hn]; omega), opN_toNat _ hn,
+  rw [rawIterFrom_numPush 0 m, rawIterFrom_pushAll _ keys _ hk, rawIterFrom_numPush,
     rawIterFrom_opcode _ 0xae _ (by decide), rawIterFrom_nil]
   simp
 
@@ -1147,52 +1154,48 @@ theorem execOp_checkmultisig (c : Ctx) (fl : Flags) (script : Bytes) (idx : Nat)
     execOp c fl script ⟨0xae, none, idx⟩ f st = checkMultiSig c fl 0xae (script.drop st.pbegin) st := by
   simp [execOp, binaryNumOps, unaryNumOps]
 
-
-theorem fad_multisig (cap : Captured) (m : Nat) (keys : List Bytes) (sig : Bytes) (hm : m ≤ 16)
-    (hn : keys.length ≤ 16) (hk : ∀ k ∈ keys, k.length < 0x4c) (hs : sig.length < 0x4c)
+theorem fad_multisig (cap : Captured) (m : Nat) (keys : List Bytes) (sig : Bytes) (hm : m ≤ 20)
+    (hn : keys.length ≤ 20) (hk : ∀ k ∈ keys, k.length < 0x4c) (hs : sig.length < 0x4c) (hs1 : sig.length ≠ 1)
     (hne : ∀ k ∈ keys, sig.length ≠ k.length) :
     findAndDelete cap (multisigScript m keys) (pushData sig) = .ok (multisigScript m keys) := by
-  have hsh : multisigScript m keys = [opN m] ++ (pushAll keys ++ [opN keys.length, 0xae]) := rfl
-  apply fad_noop cap _ _ _ _ (rawIter_multisig m keys hm hn hk) rfl
+  have hsh : multisigScript m keys = numPush m ++ (pushAll keys ++ (numPush keys.length ++ [0xae])) := rfl
+  apply fad_noop cap _ _ _ _ (rawIter_multisig m keys hk) (numOp_sopIdx m 0)
   · intro o ho
     apply slice_ne_of_head
     simp only [List.mem_cons, List.mem_append, List.not_mem_nil, or_false] at ho
     rcases ho with rfl | ho | rfl | rfl
-    · simp only [multisigScript, List.getElem?_cons_zero, ne_eq, Option.some.injEq]
-      intro h
-      have := congrArg UInt8.toNat h
-      rw [opN_toNat m hm, toNat_ofNat_lt (by omega)] at this
-      omega
-    · obtain ⟨a, _, _, d, hd, e⟩ := pushOps_facts [opN keys.length, 0xae] keys [opN m] hk o ho
+    · rw [numOp_sopIdx, hsh]
+      exact numPush_head m hm _ _ hs hs1
+    · obtain ⟨a, _, _, d, hd, e⟩ := pushOps_facts (numPush keys.length ++ [0xae]) keys (numPush m) hk o ho
       rw [hsh, a, e]
       simp only [ne_eq, Option.some.injEq]
       exact ofNat_ne (by have := hk d hd; omega) (by omega) (Ne.symm (hne d hd))
-    · have : (multisigScript m keys)[1 + (pushAll keys).length]? = some (opN keys.length) := by
-        rw [hsh, List.getElem?_append_right (by simp), List.getElem?_append_right (by simp)]
-        simp
+    · rw [numOp_sopIdx, hsh, List.getElem?_append_right (by omega), List.getElem?_append_right (by omega)]
+      have : (numPush m).length + (pushAll keys).length - (numPush m).length - (pushAll keys).length = 0 := by omega
       rw [this]
-      simp only [ne_eq, Option.some.injEq]
-      intro h
-      have := congrArg UInt8.toNat h
-      rw [opN_toNat _ hn, toNat_ofNat_lt (by omega)] at this
-      omega
-    · have : (multisigScript m keys)[1 + (pushAll keys).length + 1]? = some 0xae := by
-        rw [hsh, List.getElem?_append_right (by simp), List.getElem?_append_right (by simp)]
-        simp
+      exact numPush_head keys.length hn _ _ hs hs1
+    · have : (multisigScript m keys)[(numPush m).length + (pushAll keys).length + (numPush keys.length).length]? =
+          some 0xae := by
+        rw [hsh, List.getElem?_append_right (by omega), List.getElem?_append_right (by omega),
+          List.getElem?_append_right (by omega)]
+        have : (numPush m).length + (pushAll keys).length + (numPush keys.length).length - (numPush m).length -
+            (pushAll keys).length - (numPush keys.length).length = 0 := by omega
+        rw [this]; rfl
+      simp only
       rw [this]
       simp only [ne_eq, Option.some.injEq]
       exact (ofNat_ne_lit (by omega) _ (by simp; omega)).symm
-  · obtain ⟨h1, h2⟩ := pushOps_sorted keys 1
+  · obtain ⟨h1, h2⟩ := pushOps_sorted keys (numPush m).length
     rw [List.pairwise_cons]
-    refine ⟨fun o _ => Nat.zero_le _, ?_⟩
+    refine ⟨fun o _ => by rw [numOp_sopIdx]; exact Nat.zero_le _, ?_⟩
     rw [List.pairwise_append]
-    refine ⟨h1, by simp, ?_⟩
+    refine ⟨h1, by simp [numOp_sopIdx], ?_⟩
     intro a ha b hb
-    obtain ⟨_, _, c', _⟩ := pushOps_facts [opN keys.length, 0xae] keys [opN m] hk a ha
+    obtain ⟨_, _, c', _⟩ := pushOps_facts (numPush keys.length ++ [0xae]) keys (numPush m) hk a ha
     simp only [List.mem_cons, List.not_mem_nil, or_false] at hb
-    simp only [List.length_singleton] at c'
-    rcases hb with rfl | rfl <;> simp only <;> omega
-
+    rcases hb with rfl | rfl
+    · rw [numOp_sopIdx]; omega
+    · simp only; omega
 
 theorem pushAll_length_le : ∀ (ds : List Bytes), (∀ d ∈ ds, d.length < 0x4c) →
     (pushAll ds).length ≤ 0x4c * ds.length := by
@@ -1232,28 +1235,30 @@ theorem isPushOnly_pushAll (ds : List Bytes) (h : ∀ d ∈ ds, d.length < 0x4c)
   have := h d hd
   omega
 
-/-- `OP_m <keys> OP_n OP_CHECKMULTISIG` on the stack left by `OP_0 <sigs>` -/
+/-- `<m> <keys> <n> OP_CHECKMULTISIG` on the stack left by `OP_0 <sigs>` -/
 theorem evalScript_multisig (c : Ctx) (fl : Flags) (m : Nat) (keys sigs : List Bytes)
-    (hidx : 0 ≤ c.inIdx) (hm1 : 1 ≤ m) (hmn : m ≤ keys.length) (hn : keys.length ≤ 16) (hsl : sigs.length = m)
-    (hk : ∀ k ∈ keys, k.length < 0x4c) (hs : ∀ s ∈ sigs, s.length < 0x4c)
+    (hidx : 0 ≤ c.inIdx) (hm1 : 1 ≤ m) (hmn : m ≤ keys.length) (hn : keys.length ≤ 20) (hsl : sigs.length = m)
+    (hk : ∀ k ∈ keys, k.length < 0x4c) (hs : ∀ s ∈ sigs, s.length < 0x4c) (hs1 : ∀ s ∈ sigs, s.length ≠ 1)
     (hne : ∀ s ∈ sigs, ∀ k ∈ keys, s.length ≠ k.length) :
     evalScript c fl (sigs.reverse ++ [[]]) (multisigScript m keys) =
-      .ok [if greedy (chkSig c (multisigScript m keys)) sigs.reverse keys.reverse then [1] else []] := by
-  have hm16 : m ≤ 16 := by omega
+      .ok [if greedy (chkSig c.env (multisigScript m keys)) sigs.reverse keys.reverse then [1] else []] := by
+  have hm20 : m ≤ 20 := by omega
   have hL := pushAll_length_le keys hk
+  have hp1 := numPush_length_le m
+  have hp2 := numPush_length_le keys.length
   have hl : (multisigScript m keys).length ≤ 10000 := by
-    simp [multisigScript]; omega
-  have hit := rawIter_multisig m keys hm16 hn hk
+    simp only [multisigScript, List.length_append, List.length_singleton]; omega
+  have hit := rawIter_multisig m keys hk
   have hparse : (rawIter (multisigScript m keys)).2 = none := by rw [hit]
   have e := evalScript_of_loop c fl (sigs.reverse ++ [[]]) (multisigScript m keys) _
-    ⟨[if greedy (chkSig c (multisigScript m keys)) sigs.reverse keys.reverse then [1] else []], [], [], 0,
+    ⟨[if greedy (chkSig c.env (multisigScript m keys)) sigs.reverse keys.reverse then [1] else []], [], [], 0,
       1 + keys.length⟩ hl hit ?_ rfl
   · exact e
-  · rw [loop_cons _ _ _ _ _ _ _ (step_small c fl _ m 0 (sigs.reverse ++ [[]]) [] 0 0 hm1 hm16 (by simp; omega))]
-    rw [loop_pushOps c fl _ _ [] 0 0 keys 1 _ hk (by simp; omega)]
-    rw [loop_cons _ _ _ _ _ _ _ (step_small c fl _ keys.length _ _ [] 0 0 (by omega) hn (by simp; omega))]
+  · rw [loop_cons _ _ _ _ _ _ _ (step_numOp c fl _ m 0 (sigs.reverse ++ [[]]) [] 0 0 hm1 (by simp; omega))]
+    rw [loop_pushOps c fl _ _ [] 0 0 keys _ _ hk (by simp; omega)]
+    rw [loop_cons _ _ _ _ _ _ _ (step_numOp c fl _ keys.length _ _ [] 0 0 (by omega) (by simp; omega))]
     rw [loop_cons _ _ _ _ _ _
-      ⟨[if greedy (chkSig c (multisigScript m keys)) sigs.reverse keys.reverse then [1] else []], [], [], 0,
+      ⟨[if greedy (chkSig c.env (multisigScript m keys)) sigs.reverse keys.reverse then [1] else []], [], [], 0,
         1 + keys.length⟩, loop_nil]
     apply step_opcode
     · omega
@@ -1262,33 +1267,38 @@ theorem evalScript_multisig (c : Ctx) (fl : Flags) (m : Nat) (keys sigs : List B
     · rw [execOp_checkmultisig]
       simp only [List.drop_zero]
       have := checkMultiSig_eval c fl (multisigScript m keys) keys.reverse sigs.reverse [] 0 1
-        (chkSig c (multisigScript m keys)) (by simpa using hn) (by simp; omega) (by simp; omega)
+        (chkSig c.env (multisigScript m keys)) (by simpa using hn) (by simp; omega) (by simp; omega)
         (by simp; omega)
         (fun s hs' => hs s (by simpa using hs'))
-        (fun s hs' cap => fad_multisig cap m keys s hm16 hn hk (hs s (by simpa using hs'))
-          (hne s (by simpa using hs')))
+        (fun s hs' cap => fad_multisig cap m keys s hm20 hn hk (hs s (by simpa using hs'))
+          (hs1 s (by simpa using hs')) (hne s (by simpa using hs')))
         (fun cap s k => checkSig_total c cap s k _ hidx hparse)
       simp only [List.length_reverse, hsl] at this
       exact this
     · simp
 
-
-/-- bare m-of-n multisig, `OP_0 <sigs>` against `OP_m <keys> OP_n OP_CHECKMULTISIG` -/
-theorem verify_multisig (c : Ctx) (fl : Flags) (m : Nat) (keys sigs : List Bytes)
-    (hfl : fl.admissible = true) (hidx : 0 ≤ c.inIdx) (hm1 : 1 ≤ m) (hmn : m ≤ keys.length)
-    (hn : keys.length ≤ 16) (hsl : sigs.length = m)
-    (hk : ∀ k ∈ keys, k.length < 0x4c) (hs : ∀ s ∈ sigs, s.length < 0x4c)
-    (hne : ∀ s ∈ sigs, ∀ k ∈ keys, s.length ≠ k.length) :
-    verifyScript c fl (multisigScriptSig sigs) (multisigScript m keys) =
-      if greedy (chkSig c (multisigScript m keys)) sigs.reverse keys.reverse then .ok () else .error .verify := by
-  have hp : isP2sh (multisigScript m keys) = false := by
-    apply isP2sh_false_of_head
-    simp only [multisigScript, List.getElem?_cons_zero, ne_eq, Option.some.injEq]
-    intro h
-    have := congrArg UInt8.toNat h
-    rw [opN_toNat m (by omega)] at this
+theorem isP2sh_multisig (m : Nat) (keys : List Bytes) (hm : m ≤ 20) : isP2sh (multisigScript m keys) = false := by
+  apply isP2sh_false_of_head
+  unfold multisigScript numPush
+  split
+  · rename_i h
+    simp only [List.singleton_append, List.getElem?_cons_zero, ne_eq, Option.some.injEq]
+    intro he
+    have := congrArg UInt8.toNat he
+    rw [opN_toNat m h] at this
     simp at this
     omega
+  · simp [pushData]
+
+/-- bare m-of-n multisig, `OP_0 <sigs>` against `<m> <keys> <n> OP_CHECKMULTISIG` -/
+theorem verify_multisig (c : Ctx) (fl : Flags) (m : Nat) (keys sigs : List Bytes)
+    (hfl : fl.admissible = true) (hidx : 0 ≤ c.inIdx) (hm1 : 1 ≤ m) (hmn : m ≤ keys.length)
+    (hn : keys.length ≤ 20) (hsl : sigs.length = m)
+    (hk : ∀ k ∈ keys, k.length < 0x4c) (hs : ∀ s ∈ sigs, s.length < 0x4c) (hs1 : ∀ s ∈ sigs, s.length ≠ 1)
+    (hne : ∀ s ∈ sigs, ∀ k ∈ keys, s.length ≠ k.length) :
+    verifyScript c fl (multisigScriptSig sigs) (multisigScript m keys) =
+      if greedy (chkSig c.env (multisigScript m keys)) sigs.reverse keys.reverse then .ok () else .error .verify := by
+  have hp : isP2sh (multisigScript m keys) = false := isP2sh_multisig m keys (by omega)
   have h1 : evalScript c fl [] (multisigScriptSig sigs) = .ok (sigs.reverse ++ [[]]) := by
     have := evalScript_pushAll c fl ([] :: sigs) (by
       intro d hd
@@ -1298,17 +1308,12 @@ theorem verify_multisig (c : Ctx) (fl : Flags) (m : Nat) (keys sigs : List Bytes
       · exact hs d hd) (by simp; omega)
     simpa [multisigScriptSig] using this
   rw [verifyScript_plain c fl _ _ _ _ h1
-    (evalScript_multisig c fl m keys sigs hidx hm1 hmn hn hsl hk hs hne) hp]
-  cases greedy (chkSig c (multisigScript m keys)) sigs.reverse keys.reverse
+    (evalScript_multisig c fl m keys sigs hidx hm1 hmn hn hsl hk hs hs1 hne) hp]
+  cases greedy (chkSig c.env (multisigScript m keys)) sigs.reverse keys.reverse
   · simp [checkTopTrue_empty, bind, Except.bind]
   · simp [checkTopTrue_one, verifyCleanStack_one fl _ hfl, bind, Except.bind]
 
 /-! ### pushes of up to 65535 bytes (`CScriptOp.encode_op_pushdata`) -/
-
-def pushEnc (d : Bytes) : Bytes :=
-  if d.length < 0x4c then UInt8.ofNat d.length :: d
-  else if d.length ≤ 0xff then 0x4c :: UInt8.ofNat d.length :: d
-  else 0x4d :: UInt8.ofNat (d.length % 256) :: UInt8.ofNat (d.length / 256) :: d
 
 def pushOpcode (d : Bytes) : Nat :=
   if d.length < 0x4c then d.length else if d.length ≤ 0xff then 0x4c else 0x4d
@@ -1402,13 +1407,13 @@ theorem isPushOnly_pushAll_enc (ds : List Bytes) (r : Bytes) (h : ∀ d ∈ ds, 
 /-- P2SH-wrapped m-of-n multisig: `OP_0 <sigs> <redeem>` against `HASH160 <hash160 redeem> EQUAL` -/
 theorem verify_p2sh_multisig (c : Ctx) (fl : Flags) (m : Nat) (keys sigs : List Bytes)
     (hfl : fl.admissible = true) (hp : fl.p2sh = true) (hidx : 0 ≤ c.inIdx) (hm1 : 1 ≤ m) (hmn : m ≤ keys.length)
-    (hn : keys.length ≤ 16) (hsl : sigs.length = m)
-    (hk : ∀ k ∈ keys, k.length < 0x4c) (hs : ∀ s ∈ sigs, s.length < 0x4c)
+    (hn : keys.length ≤ 20) (hsl : sigs.length = m)
+    (hk : ∀ k ∈ keys, k.length < 0x4c) (hs : ∀ s ∈ sigs, s.length < 0x4c) (hs1 : ∀ s ∈ sigs, s.length ≠ 1)
     (hne : ∀ s ∈ sigs, ∀ k ∈ keys, s.length ≠ k.length)
     (hrl : (multisigScript m keys).length ≤ 520) (hhl : ∀ x, (c.env.hashes.hash160 x).length = 20) :
     let redeem := multisigScript m keys
     verifyScript c fl (multisigScriptSig sigs ++ pushEnc redeem) (p2shScript (c.env.hashes.hash160 redeem)) =
-      if greedy (chkSig c redeem) sigs.reverse keys.reverse then .ok () else .error .verify := by
+      if greedy (chkSig c.env redeem) sigs.reverse keys.reverse then .ok () else .error .verify := by
   intro redeem
   have hds : ∀ d ∈ ([] : Bytes) :: sigs, d.length < 0x4c := by
     intro d hd
@@ -1422,10 +1427,105 @@ theorem verify_p2sh_multisig (c : Ctx) (fl : Flags) (m : Nat) (keys sigs : List 
   have hpo : isPushOnly (multisigScriptSig sigs ++ pushEnc redeem) = true :=
     isPushOnly_pushAll_enc _ _ hds (by show (multisigScript m keys).length ≤ 0xffff; omega)
   rw [verifyScript_p2sh c fl _ redeem (sigs.reverse ++ [[]]) _ hp hpo (hhl redeem) (by simp; omega) h1
-    (evalScript_multisig c fl m keys sigs hidx hm1 hmn hn hsl hk hs hne)]
-  cases greedy (chkSig c redeem) sigs.reverse keys.reverse
+    (evalScript_multisig c fl m keys sigs hidx hm1 hmn hn hsl hk hs hs1 hne)]
+  cases greedy (chkSig c.env redeem) sigs.reverse keys.reverse
   · simp [checkTopTrue_empty, bind, Except.bind]
   · simp [checkTopTrue_one, verifyCleanStack_one fl _ hfl, bind, Except.bind]
 
+
+theorem opcodeName_equalverify : opcodeName? 0x88 = some "OP_EQUALVERIFY" := by decide
+
+theorem opEqualVerify_ne (x y : Bytes) (rest alt : List Bytes) (pb nops : Nat) (h : x ≠ y) :
+    opEqualVerify 0x88 ⟨x :: y :: rest, alt, [], pb, nops⟩ = .error (.eval ⟨x :: y :: rest, alt, nops⟩) := by
+  have h' : ¬ rest.length + 1 + 1 < 2 := by omega
+  simp [opEqualVerify, checkArgs, getTop?, pyIdx, bind, Except.bind, h', h, raiseNamed,
+    opcodeName_equalverify, St.cap]
+
+theorem loop_err (c : Ctx) (fl : Flags) (script : Bytes) (op : RawOp) (ops : List RawOp) (st : St) (e : Err)
+    (h : step c fl script op st = .error e) :
+    loop c fl script none (op :: ops) st = .error e := by
+  rw [loop]; simp only [h, bind, Except.bind]
+
+theorem step_opcode_err (c : Ctx) (fl : Flags) (script : Bytes) (sop idx : Nat)
+    (stack alt : List Bytes) (pb nops : Nat) (e : Err)
+    (h60 : sop > 0x60) (hdis : sop ∉ disabledOpcodes) (hops : nops + 1 ≤ 201)
+    (hex : execOp c fl script ⟨sop, none, idx⟩ true ⟨stack, alt, [], pb, nops + 1⟩ = .error e) :
+    step c fl script ⟨sop, none, idx⟩ ⟨stack, alt, [], pb, nops⟩ = .error e := by
+  have h2 : ¬ sop ≤ 0x4e := by omega
+  have hc : countOp sop ⟨stack, alt, [], pb, nops⟩ = .ok ⟨stack, alt, [], pb, nops + 1⟩ :=
+    countOp_op sop ⟨stack, alt, [], pb, nops⟩ h60 hops
+  unfold step
+  simp only [hdis, if_false, hc, bind, Except.bind, dispatch, h2, checkExec, List.all_nil, true_or, if_true, hex]
+
+/-- pay-to-pubkey-hash spent with a key whose hash is not the committed one: the script fails at
+    OP_EQUALVERIFY (an EvalScriptError), whatever the signature -/
+theorem verify_p2pkh_other_key (c : Ctx) (fl : Flags) (sig key h : Bytes)
+    (hk : key.length < 0x4c) (hs : sig.length < 0x4c) (hhl : h.length = 20)
+    (hne : c.env.hashes.hash160 key ≠ h) :
+    ∃ cap, verifyScript c fl (p2pkhScriptSig sig key) (p2pkhScript h) = .error (.eval cap) := by
+  have hh4 : h.length < 0x4c := by omega
+  have hl : ¬ (p2pkhScript h).length > MAX_SCRIPT_SIZE := by
+    simp [p2pkhScript, pushData, MAX_SCRIPT_SIZE]; omega
+  have h1 : evalScript c fl [] (p2pkhScriptSig sig key) = .ok [key, sig] := evalScript_push2 c fl sig key hs hk
+  have hloop : loop c fl (p2pkhScript h) none (rawIter (p2pkhScript h)).1 ⟨[key, sig], [], [], 0, 0⟩ =
+      .error (.eval ⟨[h, c.env.hashes.hash160 key, key, sig], [], 3⟩) := by
+    rw [rawIter_p2pkh h hh4]
+    rw [loop_cons _ _ _ _ _ _ ⟨[key, key, sig], [], [], 0, 1⟩
+      (step_opcode c fl _ 0x76 0 _ _ 0 0 _ (by omega) (by decide) (by omega)
+        (by rw [execOp_dup]; exact opDup_eval key [sig] [] 0 1) (by simp))]
+    rw [loop_cons _ _ _ _ _ _ ⟨[c.env.hashes.hash160 key, key, sig], [], [], 0, 2⟩
+      (step_opcode c fl _ 0xa9 1 _ _ 0 1 _ (by omega) (by decide) (by omega)
+        (by rw [execOp_hash160, hashTop_eval]) (by simp))]
+    rw [loop_cons _ _ _ _ _ _ _ (step_push c fl _ h.length 2 h [c.env.hashes.hash160 key, key, sig] [] 0 2 hh4
+      (by omega) (by simp))]
+    apply loop_err
+    apply step_opcode_err
+    · omega
+    · decide
+    · omega
+    · rw [execOp_equalverify]
+      exact opEqualVerify_ne h _ [key, sig] [] 0 3 (Ne.symm hne)
+  refine ⟨⟨[h, c.env.hashes.hash160 key, key, sig], [], 3⟩, ?_⟩
+  unfold verifyScript
+  simp only [h1, bind, Except.bind]
+  have h2 : evalScript c fl [key, sig] (p2pkhScript h) =
+      .error (.eval ⟨[h, c.env.hashes.hash160 key, key, sig], [], 3⟩) := by
+    unfold evalScript evalScriptRaw
+    simp only [hl, if_false, rawIter_p2pkh h hh4, bind, Except.bind]
+    rw [rawIter_p2pkh h hh4] at hloop
+    simp only [hloop]
+  simp only [h2]
+
+
+theorem greedy_congr {chk chk' : Bytes → Bytes → Bool} : ∀ (ks ss : List Bytes),
+    (∀ s ∈ ss, ∀ k, chk s k = chk' s k) → greedy chk ss ks = greedy chk' ss ks := by
+  intro ks
+  induction ks with
+  | nil => intro ss _; cases ss <;> rfl
+  | cons k ks ih =>
+    intro ss h
+    cases ss with
+    | nil => rfl
+    | cons s ss =>
+      simp only [greedy]
+      rw [h s List.mem_cons_self k]
+      split
+      · exact ih ss (fun s' hs' => h s' (List.mem_cons_of_mem _ hs'))
+      · exact ih (s :: ss) h
+
+theorem greedy_all_false {chk : Bytes → Bytes → Bool} : ∀ (ks ss : List Bytes), ss ≠ [] →
+    (∀ s ∈ ss, ∀ k, chk s k = false) → greedy chk ss ks = false := by
+  intro ks
+  induction ks with
+  | nil => intro ss hne _; cases ss with
+    | nil => exact absurd rfl hne
+    | cons s ss => rfl
+  | cons k ks ih =>
+    intro ss hne h
+    cases ss with
+    | nil => exact absurd rfl hne
+    | cons s ss =>
+      simp only [greedy, h s List.mem_cons_self k, Bool.false_eq_true, if_false]
+      exact ih (s :: ss) hne h
 
 end BtcVerif.C05T
